@@ -9,6 +9,8 @@
 
 #[path = "c03_gen.rs"]
 pub mod c03_gen;
+#[path = "c03_outline.rs"]
+pub mod c03_outline;
 #[path = "c03_pure.rs"]
 pub mod c03_pure;
 
@@ -522,6 +524,7 @@ pub struct C03 {
     all: Vec<usize>,
     words: BTreeMap<&'static str, Vec<String>>,
     pure: c03_pure::Pure,
+    outline: c03_outline::Outline,
 }
 
 impl C03 {
@@ -548,7 +551,8 @@ impl C03 {
             words.insert(key, v);
         }
         let pure = c03_pure::Pure::new(cx);
-        C03 { fonts, shaping, variable, images, all, words, pure }
+        let outline = c03_outline::Outline::new(cx);
+        C03 { fonts, shaping, variable, images, all, words, pure, outline }
     }
 
     fn word(&self, script: u32, rng: &mut Rng) -> String {
@@ -991,6 +995,9 @@ impl C03 {
             }
             if panicked {
                 cx.class("both-panicked-identically");
+                if cx.verbose {
+                    eprintln!("identical panic on long-lived and fresh font: font={} op={} :: {}", name, op.label(), got.replace('\n', " "));
+                }
                 cx.class(&format!("both-panicked-identically:{}", got.replace('\n', " ").chars().take(120).collect::<String>()));
                 break; // the long-lived font may be left half-updated by the unwinding
             }
@@ -1192,13 +1199,15 @@ impl Prop for C03 {
         let mode = cx.mode.clone();
         match mode.as_str() {
             "pure" => self.pure.case(cx, rng),
+            "outline" => self.outline.case(cx, rng),
             "gen" => self.history_case(cx, rng, FontClass::Generated),
             "shaping" => self.history_case(cx, rng, FontClass::Shaping),
             "variable" => self.history_case(cx, rng, FontClass::Variable),
             "images" => self.history_case(cx, rng, FontClass::Images),
             "any" => self.history_case(cx, rng, FontClass::Any),
             _ => match rng.below(100) {
-                0..=11 => self.pure.case(cx, rng),
+                0..=8 => self.pure.case(cx, rng),
+                9..=11 => self.outline.case(cx, rng),
                 12..=39 => self.history_case(cx, rng, FontClass::Generated),
                 40..=71 => self.history_case(cx, rng, FontClass::Shaping),
                 72..=83 => self.history_case(cx, rng, FontClass::Variable),
